@@ -106,7 +106,7 @@ func runCompositions(c *core.Ctx, rules map[string]bool, words ...string) {
 		if !strings.HasPrefix(mb.name, "allOf: ") {
 			continue
 		}
-		runMember(c, mb, rules, 64, func(w *fam.World, fm *fam.FileModel) []fam.Issue {
+		runMember(c, mb, rules, 256, func(w *fam.World, fm *fam.FileModel) []fam.Issue {
 			var keep []fam.Issue
 			for _, is := range checkRoot(w, fm) {
 				for _, wd := range words {
@@ -137,7 +137,7 @@ func C11(c *core.Ctx) {
 	ms := anyOfMembers(c.Tier, cfg)
 	ms = append(ms, allOfMembers(cfg)...)
 	for _, mb := range ms {
-		runMember(c, mb, rules, 64, func(w *fam.World, fm *fam.FileModel) []fam.Issue {
+		runMember(c, mb, rules, 256, func(w *fam.World, fm *fam.FileModel) []fam.Issue {
 			var keep []fam.Issue
 			for _, is := range checkRoot(w, fm) {
 				switch is.Rule {
